@@ -10,41 +10,20 @@ From AV Require Import Lib.Base Generated.CookiesGen Model.Cookies
   Proofs.CookiesStrings Proofs.CookiesJar Proofs.CookiesSound Proofs.CookiesSpec Proofs.CookiesWitness.
 Open Scope N_scope.
 
-(* ---- The full statement would be
-
-        forall unsafe t0 ops, forallb op_hosts_okb ops = true -> attached_allowed unsafe t0 ops
-
-   (response hosts non-empty and without empty labels; nothing else assumed).  The faithful model REFUTES it
-   in three ways; each witness is replayed on the implementation (corpus/C16/finding-*.json) and is an open
-   known finding. *)
-
-(* "a=v2; Expires=Thu, 01 Jan 1970 00:00:00 GMT" is kept as a session cookie and sent *)
-Theorem C16_no_leak_refuted_epoch_zero :
-  forallb op_hosts_okb w_epoch_zero = true /\ ~ attached_allowed false T0 w_epoch_zero.
-Proof. exact (epoch_zero_refuted eq_refl). Qed.
-Print Assumptions C16_no_leak_refuted_epoch_zero.
-
-(* "a=v1; Path=/foo//" is sent to /foo/xy *)
-Theorem C16_no_leak_refuted_trailing_slashes :
-  forallb op_hosts_okb w_trailing_slashes = true /\ ~ attached_allowed false T0 w_trailing_slashes.
-Proof. exact trailing_slashes_refuted. Qed.
-Print Assumptions C16_no_leak_refuted_trailing_slashes.
-
-(* "a=v1; Max-Age=abc; Expires=<100 s ago>" is kept as a session cookie and sent *)
-Theorem C16_no_leak_refuted_invalid_max_age :
-  forallb op_hosts_okb w_invalid_max_age = true /\ ~ attached_allowed false T0 w_invalid_max_age.
-Proof. exact invalid_max_age_refuted. Qed.
-Print Assumptions C16_no_leak_refuted_invalid_max_age.
-
-(* ---- What is proved instead: for ALL histories (any length; any interleaving of Set-Cookie batches, clock
-   advances, clear, clear_domain, save+load and queries; safe or unsafe jar) whose Set-Cookie records avoid
-   exactly those three shapes (`op_okb`: cookie path without a double trailing slash; no unparseable Max-Age
-   next to a valid Expires; Expires value not the one `expires_value_used` discards), every attached cookie
-   is attached by the RFC reference store.  Missing for the full statement: the three findings above. *)
-Theorem C16_no_leak_partial : forall unsafe t0 ops,
+(* ---- Safety core, full statement: for ALL histories (any length; any interleaving of Set-Cookie batches, clock
+   advances, clear, clear_domain, save+load and queries; safe or unsafe jar; arbitrary attribute records: any
+   Domain, Path, Secure, valid / invalid / absent Max-Age and Expires) every cookie the jar attaches is attached
+   by the RFC reference store.  The only hypothesis (`op_okb`) is that response hosts are well-formed: non-empty,
+   not starting with "." and without an empty label inside (a trailing dot is allowed).  It is genuinely needed:
+   for a host ".example.com" the jar strips the dot from the host-only domain as well, and save+load moves a
+   cookie of domain ".x" to "x"; such hosts do not resolve and are outside the property's host lattice.
+   (Earlier rounds had this only as `_partial`: the three shapes it excluded -- Expires at the epoch, a cookie
+   path with several trailing slashes, an invalid Max-Age next to a valid Expires -- were defects, now repaired
+   in /repo; their witnesses are corpus regressions and `C16_example_repaired` below.) *)
+Theorem C16_no_leak : forall unsafe t0 ops,
   forallb op_okb ops = true -> attached_allowed unsafe t0 ops.
-Proof. exact no_leak_partial_b. Qed.
-Print Assumptions C16_no_leak_partial.
+Proof. exact no_leak_b. Qed.
+Print Assumptions C16_no_leak.
 
 (* ... and "attached by the reference store" means, in RFC 6265 terms: some stored cookie with that name and
    value domain-matches the request host (a host-only cookie: equals it), path-matches the request path, is not
@@ -159,6 +138,15 @@ Example C16_example_history :
     [ [ ([98], [118; 50]) ]; [ ([97], [118; 49]); ([98], [118; 50]) ]; [ ([97], [118; 49]) ]; []; [ ([98], [118; 50]) ] ].
 Proof. vm_compute. auto. Qed.
 Print Assumptions C16_example_history.
+
+(* the former refutation witnesses: "a=v2; Expires=<epoch>" deletes the cookie; "Path=/foo//" is not sent to
+   /foo/xy; "Max-Age=abc; Expires=<past>" is expired *)
+Example C16_example_repaired :
+  snd (run (empty_jar false, T0) w_epoch_zero) = [ [] ] /\
+  snd (run (empty_jar false, T0) w_trailing_slashes) = [ [] ] /\
+  snd (run (empty_jar false, T0) w_invalid_max_age) = [ [] ].
+Proof. exact repaired_witnesses. Qed.
+Print Assumptions C16_example_repaired.
 
 Example C16_example_domain_match :
   is_domain_match [101; 46; 99] [115; 46; 101; 46; 99] = true /\      (* "e.c" vs "s.e.c" *)
